@@ -24,9 +24,12 @@ ASSUMPTIONS = [
     "maxUnavailable >= 1 after resolution, slowStartAdditiveIncrease >= 1, maxParallelPodCreation >= 1, interval > 0 "
     "(each is necessary: C02_*_needed)",
     "the liveness theorems are on the per-class abstraction (Model/Abstract.v) which shares calc_create / calc_delete with the sync "
-    "model; the projection from sync plans to abstract rounds is not proved (stretch) - the histories are its test",
+    "model; C02_plan_projects proves that the real plan's budgets are the abstract sync's on the class counts of its items; "
+    "the environment's half of a round is exercised by the histories",
 ]
-OPEN_STATEMENTS = ["C02_projection: for snapshots with at most one counted pod per node the plan of the active role projects to the abstract round - not proved"]
+OPEN_STATEMENTS = ["the environment's half of a fair round (created pods become planning items holding a Ready pod, deleted pods disappear, "
+                   "terminating ones are finalised) is a statement about the API server and the kubelet: exercised by the histories, not "
+                   "proved; the controller's half - the budgets of the real plan are those of the abstract sync - is C02_plan_projects"]
 CODES = {
     1: "model does not predict the reconcile",
     10: "at rest an eligible node does not run exactly one Ready pod built from the live template",
